@@ -4,12 +4,12 @@ import common
 
 LEAN_MODULES = ['OpusProps.C13']
 GEN = []
-SOURCES = ['src/opus_private.h', 'celt/arch.h', 'celt/float_cast.h', 'celt/mathops.c', 'celt/mathops.h', 'src/opus_encoder.c',
+SOURCES = ['src/opus_private.h', 'src/opus_multistream.c', 'celt/arch.h', 'celt/float_cast.h', 'celt/mathops.c', 'celt/mathops.h', 'src/opus_encoder.c',
            'src/opus_decoder.c', 'src/opus.c', 'src/opus_multistream_encoder.c', 'src/opus_multistream_decoder.c',
            'src/opus_projection_decoder.c', 'src/mapping_matrix.c', 'src/analysis.c', 'include/opus.h',
            'celt/x86/x86cpu.c']
 REQUIRED_THEOREMS = ['OpusProps.C13.' + t for t in (
-    'inputs_coincide', 'encode_formats_agree', 'in24_exact', 'rne_nearest_even', 'out24_spec', 'out16_spec',
+    'inputs_coincide', 'encode_formats_agree', 'ms_formats_agree', 'in24_exact', 'rne_nearest_even', 'out24_spec', 'out16_spec',
     'sat16_range', 'views_roundtrip', 'proj16_saturates', 'proj16_tracks', 'proj16_tracks_float')]
 UNPROVED = ['projection: the accumulated binary32 rounding of the float path itself (distance of projOutF, which is modelled '
             'bit-exactly and tied to mapping_matrix_multiply_channel_out_float, from the exact product sumExactF) is not '
@@ -22,7 +22,9 @@ UNPROVED = ['projection: the accumulated binary32 rounding of the float path its
 RULE = ('entry points: the real opus_encode / opus_encode24 / opus_encode_float and opus_decode / opus_decode24 / '
         'opus_decode_float compiled from src/opus_encoder.c / src/opus_decoder.c with only the CALL of the shared core '
         'redirected to a recorder: random rate, channels, st->lsb_depth 8..24, expert frame duration ARG/2.5..40 ms, buffer '
-        'sizes valid / invalid / longer than the coded frame, arbitrary int16 / int32 / float samples; decoder: packets of '
+        'sizes valid / invalid / longer than the coded frame, arbitrary int16 / int32 / float samples; multistream entry points '
+        'with explicit layouts (1..3 streams, 0..3 coupled, input channels permuted / duplicated / unused): per-stream tuples '
+        'incl. the down-mix callback applied with (c1, c2) to the caller\'s buffer; decoder: packets of '
         'six durations, PLC, FEC, buffers shorter / equal / longer than the packet, special float blocks. '
         'exhaustive: all 65536 int16 values through INT16TORES/INT16TOSIG, 256*x through INT24TORES/INT24TOSIG and '
         '(float)x/32768 through FLOAT2RES/FLOAT2SIG (thorough: also (float)x*(1/32768.f) and x itself as a 24-bit sample); '
@@ -71,8 +73,9 @@ def ties(ctx):
         t = common.run_tie('pcm-f2i16-arch%d' % a, [h, 'f2i16', str(ctx.seed * 8 + a), '500' if q else '20000'],
                            env={'OPUS_VERIF_ARCH_CAP': str(a)})
         out.append(t)
-    he = ctx.harness('c13_entry', ['c13_entry.c', 'c13_entry_dec.c'], variant='san')
+    he = ctx.harness('c13_entry', ['c13_entry.c', 'c13_entry_dec.c', 'c13_entry_ms.c'], variant='san')
     out.append(common.run_tie('pcm-entry-enc', [he, 'enc', s, '1200' if q else '40000']))
+    out.append(common.run_tie('pcm-entry-ms', [he, 'ms', s, '1500' if q else '50000']))
     out.append(common.run_tie('pcm-entry-dec', [he, 'dec', s, '3000' if q else '100000']))
     out.append(common.run_tie('pcm-proj', [h, 'projtie', s, '20000' if q else '800000']))
     return out
@@ -97,6 +100,12 @@ def classify(ctx, tie, mm):
                  'three formats (encode_formats_agree): samples, frame size, analysis size, depth, down-mix or flags',
         'encf': 'opus_encode_float hands opus_encode_native a different argument tuple than the one proved identical across '
                 'the three formats (encode_formats_agree): samples, frame size, analysis size, depth, down-mix or flags',
+        'ms16': 'opus_multistream_encode hands a stream\'s opus_encode_native a different tuple (gathered samples, c1, c2, '
+                'down-mix applied to the analysis buffer, depth) than the one proved identical across the three formats',
+        'ms24': 'opus_multistream_encode24 hands a stream\'s opus_encode_native a different tuple (gathered samples, c1, c2, '
+                'down-mix applied to the analysis buffer, depth) than the one proved identical across the three formats',
+        'msf': 'opus_multistream_encode_float hands a stream\'s opus_encode_native a different tuple (gathered samples, c1, '
+               'c2, down-mix applied to the analysis buffer, depth) than the one proved identical across the three formats',
         'dec16': 'opus_decode: soft_clip flag / frame size handed to opus_decode_native or the conversion applied to its output '
                  'differ from out16_spec (soft clip on, then saturate(round-half-even(32768*v)))',
         'dec24': 'opus_decode24: soft_clip flag / frame size handed to opus_decode_native or the conversion applied to its '
@@ -212,7 +221,7 @@ def search(ctx):
                       'three at random frame boundaries (reference soft-clip memory cleared at the same points; biased to loud '
                       'low-frequency content so that the clipper carries state across the boundary): equal sample counts and final ranges, '
                       'int24 == rint(float*2^23), int16 == saturate(rint(32768*softclip(float))) with the library\'s own '
-                      'opus_pcm_soft_clip and an independent double-precision reference conversion; (ms) both relations '
+                      'opus_pcm_soft_clip and an independent double-precision reference conversion; (ms) half of the configurations with EXPLICIT layouts (input channels permuted — a coupled stream whose right channel is input 0 —, duplicated, unused), every input channel carrying different content, biased to complexity >= 7 / Fs >= 16 kHz; both relations '
                       'through the multistream API (families 0/1/255, 1..8 channels) channel by channel; (proj) projection '
                       'decoder: int16 output == saturating sum of the rounded Q15 matrix products of the soft-clipped 16-bit '
                       'stream samples (never a wrapped value) and |int16 - 32768*float| <= streams+0.5 LSB when nothing clipped',
@@ -225,13 +234,13 @@ def replay(ctx, obj):
     h = _harness(ctx)
     items = [obj] + list(obj.get('other_witnesses', []))
     lines = [w.get('input', '') for w in items if w.get('input', '').startswith('pcm ')]
-    entry = [l for l in lines if l.split(' ')[1] in ('enc16', 'enc24', 'encf', 'dec16', 'dec24', 'decf')]
+    entry = [l for l in lines if l.split(' ')[1] in ('enc16', 'enc24', 'encf', 'dec16', 'dec24', 'decf', 'ms16', 'ms24', 'msf')]
     lines = [l for l in lines if l not in entry]
     if entry:
         # entry-point lines carry random samples generated by the harness; re-run those ties as a whole
-        he = ctx.harness('c13_entry', ['c13_entry.c', 'c13_entry_dec.c'], variant='san')
+        he = ctx.harness('c13_entry', ['c13_entry.c', 'c13_entry_dec.c', 'c13_entry_ms.c'], variant='san')
         common.lake_build(['opusmodel'])
-        for mode, n in (('enc', '1200'), ('dec', '3000')):
+        for mode, n in (('enc', '1200'), ('ms', '1500'), ('dec', '3000')):
             t = common.run_tie('pcm-entry-' + mode, [he, mode, str(obj.get('seed', 1)), n])
             print('entry-point tie %s: %d cases, %d mismatches %s' % (mode, t.cases, t.n_mismatch, t.error or ''))
             for mm in t.mismatches[:2]:
